@@ -8,7 +8,7 @@ sys.path.insert(0, str(Path(__file__).resolve().parent))
 import vlib
 
 CODEC = "include/quill/core/Codec.h"
-C11_REPAIR = [  # proposed repair of the map codec (build/proposals/C11.diff): C11 mutants are applied on top of it
+C11_REPAIR = [  # repair of the map codec (fix commit 9f9f378 in /repo); applied only if the copy does not have it yet
     (f, "        total_size += Codec<std::pair<Key, T>>::compute_encoded_size(conditional_arg_size_cache, elem);",
      "        total_size += Codec<Key>::compute_encoded_size(conditional_arg_size_cache, elem.first);\n"
      "        total_size += Codec<T>::compute_encoded_size(conditional_arg_size_cache, elem.second);")
@@ -47,7 +47,11 @@ MUTS = {
     "c11_new_in_reserve_path": ("C11", "break", C11_REPAIR + [
         ("include/quill/Logger.h", "    std::byte* write_buffer = _prepare_write_buffer(total_size);\n\n    if constexpr ((frontend_options_t::queue_type == QueueType::BoundedDropping)",
          "    std::byte* write_buffer = _prepare_write_buffer(total_size);\n    delete new uint64_t{total_size};\n\n    if constexpr ((frontend_options_t::queue_type == QueueType::BoundedDropping)")]),
-    "c11_repair_only": ("C11", "benign", C11_REPAIR),
+    "c11_map_codec_copies_elements_again": ("C11", "break", [   # reverts fix commit 9f9f378 (the deviation this check found)
+        (f, "        total_size += Codec<Key>::compute_encoded_size(conditional_arg_size_cache, elem.first);\n"
+            "        total_size += Codec<T>::compute_encoded_size(conditional_arg_size_cache, elem.second);",
+         "        total_size += Codec<std::pair<Key, T>>::compute_encoded_size(conditional_arg_size_cache, elem);")
+        for f in ("include/quill/std/Map.h", "include/quill/std/UnorderedMap.h")]),
 }
 
 
@@ -60,6 +64,8 @@ def run_one(name):
             p = d / f
             s = p.read_text()
             if s.count(old) != 1:
+                if (f, old, new) in C11_REPAIR and "elem.first" in s:
+                    continue            # already repaired upstream
                 print(f"{name}: pattern not found exactly once in {f} ({s.count(old)})")
                 return
             p.write_text(s.replace(old, new))
